@@ -5,6 +5,7 @@ import (
 	"go/ast"
 	"go/token"
 	"go/types"
+	"os"
 	"sort"
 	"strings"
 )
@@ -592,8 +593,18 @@ func ruleSortDefaults(p *Program, r *Run, rule string) {
 			if o.Ev.Kind != "T" {
 				continue
 			}
-			word := strings.ToUpper(strings.TrimSpace(o.Ev.Text))
-			if word != thenWord && word != elseWord {
+			// (a text may carry several of the words at once: " ASC NULLS FIRST" from a helper that returns both)
+			word := ""
+			fields := strings.Fields(strings.ToUpper(o.Ev.Text))
+			for _, w := range []string{thenWord, elseWord} {
+				ws := strings.Fields(w)
+				for i := 0; i+len(ws) <= len(fields); i++ {
+					if strings.Join(fields[i:i+len(ws)], " ") == w {
+						word = w
+					}
+				}
+			}
+			if word == "" {
 				continue
 			}
 			// the flag of the term being written
@@ -608,6 +619,15 @@ func ruleSortDefaults(p *Program, r *Run, rule string) {
 						val, known = f.Eq, true
 					}
 				}
+			}
+			if os.Getenv("PQL_DEBUG_SORT") != "" {
+				var ks []string
+				for _, k := range o.St.Keys() {
+					if strings.HasSuffix(k, "."+field) {
+						ks = append(ks, k+"="+fmt.Sprint(o.St.Get(k).Eq))
+					}
+				}
+				fmt.Fprintf(os.Stderr, "SORT field=%s text=%q word=%s keys=%v\n", field, o.Ev.Text, word, ks)
 			}
 			seen[word] = true
 			want := "false"
